@@ -64,6 +64,9 @@ CHECKS = {
  "C13": ("metamorphic monitor: a building, running generated host P and its consistently renamed twin rho(P) (one identifier position x one name class at a time) through the real `incan --check` / `incan build` / execution; equality of exit status and stdout",
          "Position x name-class cells (locals, parameters, loop/match/comprehension variables, functions, methods, fields, types, variants x Rust-only keywords, names the generated code relies on, case and underscore/digit shapes) are covered one renaming at a time so a failure is attributable.",
          "Renaming is textual over code segments only (string literal text is untouched, f-string sub-expressions are renamed); hosts print nothing derived from identifiers.", "5/C13"),
+ "C06": ("metamorphic + reference-model monitor: every generated const-evaluable expression is evaluated on both real paths (`const C = e` and `def f(): return e`) in one compiled program, compared with each other, with incanref and with the compiler's recorded TypeCheckInfo.const_values; error parity and cycle scenarios through the real checker with a watchdog",
+         "Const DAGs of 10 expressions per program over ints, floats, bools and strings (arithmetic incl. // % ** /, comparisons, and/or, concat chains, index/slice with out-of-range constants and zero step, membership), plus const cycles of length 1-4. Exploration.",
+         "String concatenation and bare str-const returns have no buildable run-time twin on this tree (known C02 findings) and are compared against the reference and the recorded const value only.", "5/C06"),
 }
 WIP = "check not built yet in this round (work in progress; see DESIGN.md section 5 for the planned monitor)"
 ALL = ["C%02d" % i for i in range(1, 21)]
